@@ -152,7 +152,7 @@ fn classify(e: &koto::Error) -> u64 {
         2
     } else if first.contains("not found") {
         4
-    } else if first.contains("expected") {
+    } else if first.contains("expected") || first.contains("unable to perform operation") {
         5
     } else {
         7
